@@ -1,5 +1,5 @@
-(* C09 -- Upscaling yields a valid coarse D8 network anchored on fine-grid outlet pixels (non-iterative kernels
-   and the connection check; the iterative stages of ihu are not modelled, see DESIGN.md). *)
+(* C09 -- Upscaling yields a valid coarse D8 network anchored on fine-grid outlet pixels (non-iterative kernels,
+   the connection check and the iterative stages of ihu, theories/Ihu.v; see DESIGN.md section 10). *)
 From Coq Require Import List Arith ZArith Bool.
 Import ListNotations.
 From PF Require Import Arr Net Elev ElevSpec Upscale UpscaleSpec UpscaleId UpscaleLoopfree UpscaleD8.
@@ -430,7 +430,7 @@ Theorem up_ihu_scale1_net : forall sds upa subnrow subncol ea, 0 < subncol -> le
 Proof. exact IhuScale1.up_ihu_scale1_net. Qed.
 Print Assumptions up_ihu_scale1_net.
 
-(* KNOWN FINDING F9c/F9d: the coarse network of ihu is NOT always loop-free, even for true cell-count upstream areas: two witnesses
+(* KNOWN FINDING F9c: the coarse network of ihu is NOT always loop-free, even for true cell-count upstream areas: two witnesses
    (a 3-cycle made by ihu_optimize_rivlen, a 2-cycle made by ihu_minimize_error), found by random search with the extracted model
    and reproduced against the implementation, where FlwdirRaster.upscale raises 'network is invalid'.  What holds: every cycle of
    the result passes through a coarse cell that the last connection check did not flag as valid (a cell with an upscale error). *)
@@ -537,8 +537,9 @@ Print Assumptions gen_up_upscale_error_assert.
 (* The ITERATIVE stages regenerated from the source as well (generated/GenIhu.v, tools/gen_ihu.py): next_outlet, outlet_pix,
    upscale_check, new_outlet, ihu_optimize_rivlen, ihu_minimize_error, core._d8_idx / _upstream_d8_idx and the driver loop of
    `ihu` ARE the definitions of theories/Ihu.v (None = the model's error flag; the 10^6-step range of ihu_minimize_error is
-   translated as written and proved to agree with the model's cut-off after nc + 2 steps).  ihu_relocate_outlets is not
-   translated: it enters the generated driver as a parameter, required to behave like the model's `relocate`.  The hypothesis
+   translated as written and proved to agree with the model's cut-off after nc + 2 steps).  In the theorem below
+   ihu_relocate_outlets enters the generated driver as a parameter required to behave like the model's `relocate`; further down
+   the regenerated ihu_relocate_outlets itself is plugged in and that hypothesis disappears.  The hypothesis
    nomv_cell (the stand-in cell computed for a missing downstream pixel is never the pixel's own cell) holds in particular when
    no pixel of the network drains to a missing pixel. *)
 From PF Require Import GenIhuBaseEq GenIhuCheckEq GenIhuOptEq GenIhuMinEq GenIhuDrvEq.
